@@ -378,7 +378,9 @@ impl ConfigOptions {
             config.max_packsize_tolerate_percent = Some(percent);
         }
 
-        config.extra_verify = self.set_extra_verify;
+        if let Some(extra_verify) = self.set_extra_verify {
+            config.extra_verify = Some(extra_verify);
+        }
 
         Ok(())
     }
